@@ -248,7 +248,7 @@ def check_storage(ctx, rule="WIRE-PH", only=None):
     # refusals: once the pattern was found at p, the parser may only refuse while fewer than 16 bytes follow p
     n_err = 0
     ilen = Lin.sym("len(input)")
-    for st, rv in (outs if only is None else []):
+    for st, rv in outs:
         if not isinstance(rv, Enum):
             continue
         for vi, fs in rv.variants:
@@ -261,6 +261,16 @@ def check_storage(ctx, rule="WIRE-PH", only=None):
             fsyms = sorted(sy for sy in eng.bounds if str(sy).startswith("found#") and (st.holds(Lin.sym(sy), eng)))
             short = [sy for sy in fsyms if st.holds(Lin.sym(sy).add(Lin.const(15)).sub(ilen), eng)]
             n_err += 1
+            if short:
+                # a header cut short is a matter of missing bytes: the refusal must be `Incomplete`, not a hard error
+                ev = fs[0]
+                if isinstance(ev, Top):
+                    ev = eng.M.force(st, ev)
+                kinds = sorted({eng.T.variant_name(ev.ty, i) for i, _ in ev.variants}) if isinstance(ev, Enum) else ["?"]
+                if kinds != ["Incomplete"]:
+                    R.violation(rule, STO + "|short-header-refused-as|" + ",".join(kinds), "with the pattern found but fewer than 16 bytes behind it the storage-header parser refuses with %s: a header cut short (e.g. inside its ECU id) must be reported as incomplete" % kinds, function=STO, file=fl, line=ln)
+            if only is not None:
+                continue
             if short:
                 R.obligation(rule, "%s|refuse-only-short|%r" % (STO, st.key[-2:]), "discharged", "a refusal after the pattern was found implies fewer than 16 bytes from the pattern on")
             else:
